@@ -77,6 +77,7 @@ class ShardState(object):
         self.recent = collections.deque(maxlen=6)
         self.timeouts = 0
         self.case_timeout = 0
+        self.notes = []
 
 
 def _describe(prop, case):
@@ -143,6 +144,12 @@ def _execute(prop, prop_id, case, st, open_entries, origin):
     st.recent.append(case)
     try:
         res = run_with_limit(prop, case, st.case_timeout)
+    except common.SolverMisbehaved as e:
+        st.labels['skipped:solver_returned_infeasible_point'] += 1
+        st.counters['solver_misbehaved'] += 1
+        if len(st.notes) < 3:
+            st.notes.append(str(e)[:300])
+        return
     except CaseTimeout:
         _kill_children()
         st.labels['case_timeout'] += 1
@@ -256,6 +263,8 @@ def run_shard(args):
                         except CaseTimeout:
                             _kill_children()
                             return
+                        except common.SolverMisbehaved:
+                            return
                         except Violation as v:
                             if v.signature(prop_id) == sig and \
                                     known_match(prop, open_entries, sig, case) is None:
@@ -286,7 +295,7 @@ def run_shard(args):
                samples_nt=st.samples_nt, samples_any=st.samples_any,
                failures=st.failures, excluded_dup=dict(st.excluded_dup),
                excluded_known=dict(st.excluded_known), wall=time.time() - t0,
-               timeouts=st.timeouts)
+               timeouts=st.timeouts, notes=st.notes)
     return out
 
 
@@ -315,10 +324,13 @@ def replay(prop_id, path):
         # depends on state the repository keeps between objects); their outcome is ignored
         try:
             prop.run_case(pre)
-        except Exception:
+        except (Exception, common.SolverMisbehaved):
             pass
     try:
         prop.run_case(case)
+    except common.SolverMisbehaved as e:
+        print('replay: outside the property (the MILP solver misbehaved): %s' % e)
+        return 0
     except Violation as v:
         print('replay: %s' % v)
         print('replay-signature: %s' % v.signature(prop_id))
@@ -556,6 +568,9 @@ def main(argv=None):
         'case_timeouts': case_timeouts,
         'repo': common.REPO,
     }
+    notes = list(st.notes) + [n for r in results for n in r.get('notes', [])]
+    if notes:
+        cov['solver_misbehaved'] = notes[:3]
     extra_cov = getattr(prop, 'coverage_extra', None)
     if extra_cov:
         try:
